@@ -6,14 +6,15 @@
 # Copies patch, demo and a meta.json into /verif/seeded/<PROP><variant>/ and removes the worktree.
 set -u
 P=$1; V=$2
-SRC=/tmp/mut/$P/out/$V
+MUT=${MUT:-/tmp/mut}
+SRC=$MUT/$P/out/$V
 DST=/verif/seeded/$P$V
 WT=$(mktemp -d /tmp/seedwt-XXXXXX)
 export GOFLAGS=-mod=mod GOPROXY=off GOSUMDB=off GOTOOLCHAIN=local
-PIN=9bcd8b1
+PIN=${PIN:-9bcd8b1}   # wave 2: MUT=/tmp/mut2 PIN=<the /repo HEAD the agents worked on>
 git -C /repo worktree add --detach "$WT/wt" $PIN >/dev/null 2>&1 || { echo "worktree failed"; exit 2; }
 cd "$WT/wt"
-DEMO=$(python3 -c "import json;print(json.load(open('$SRC/meta.json'))['demo_cmd'])" | sed "s#/tmp/mut/$P/wt#$WT/wt#g")
+DEMO=$(python3 -c "import json;print(json.load(open('$SRC/meta.json'))['demo_cmd'])" | sed "s#$MUT/$P/wt#$WT/wt#g; s#$MUT/$P/out/$V#$SRC#g")
 res_build=fail; res_tests=fail; res_with=unknown; res_without=unknown
 git apply "$SRC/patch.diff" || { echo "patch does not apply"; }
 if go build ./... >/dev/null 2>&1; then res_build=ok; fi
@@ -27,17 +28,18 @@ mkdir -p "$DST"
 cp "$SRC/patch.diff" "$DST/patch.orig.diff"
 [ -f "$DST/patch.diff" ] || cp "$SRC/patch.diff" "$DST/patch.diff"
 rm -rf "$DST/demo"; cp -r "$SRC/demo" "$DST/demo"
-python3 - "$SRC/meta.json" "$DST/meta.json" "$res_build" "$res_tests" "$rc_with" "$rc_without" "$P" <<'EOF'
+PIN=$PIN python3 - "$SRC/meta.json" "$DST/meta.json" "$res_build" "$res_tests" "$rc_with" "$rc_without" "$P" <<'EOF'
 import json,sys,os
 src,dst,b,t,w,wo,p=sys.argv[1:]
+pin=os.environ.get("PIN","9bcd8b1")
 m=json.load(open(src))
 old=json.load(open(dst)) if os.path.exists(dst) else {}
 out={"property":p,"title":m.get("title"),"files":m.get("files"),"what":m.get("what"),"needs":m.get("needs"),
      "why_tests_pass":m.get("why_tests_pass"),"demo_cmd":m.get("demo_cmd"),
-     "confirmed":{"pinned_commit":"9bcd8b1","build_with_change":b,"existing_tests_with_change":t,
+     "confirmed":{"base_commit":pin,"build_with_change":b,"existing_tests_with_change":t,
                   "demo_rc_with_change":int(w),"demo_rc_without_change":int(wo),
-                  "how":"tools/confirm_seed.sh in a fresh scratch worktree of the pinned commit"},
-     "patch.diff":"applies to the current /repo HEAD (ported where hooks/fix commits touched the same lines); patch.orig.diff applies to the pinned commit",
+                  "how":"tools/confirm_seed.sh in a fresh scratch worktree of base_commit"},
+     "patch.diff":"applies to the current /repo HEAD (ported where hooks/fix commits touched the same lines); patch.orig.diff applies to base_commit",
      "detected_by":old.get("detected_by","(not yet run)")}
 json.dump(out,open(dst,"w"),indent=1)
 EOF
